@@ -610,6 +610,9 @@ def check(run):
     facts = run.facts
     check_fresh_records(run, "R01.10")
     check_block_state_cleared(run, "R01.11")
+    # records are written under the parameter set the application selected: write_block() re-arms the (possibly empty) block
+    from . import C12
+    C12.check_write_clear_rearm(run, "R01.12")
     was = {}
     all_rows = []
     for s in BLOCK_STRUCTS:
@@ -657,7 +660,11 @@ def check(run):
     il_w = facts.fn("CDNS::IndexListItem::write", rule="R01.1")
     il_r = facts.fn("CDNS::IndexListItem::read", rule="R01.1")
     iwa = emission.analyse_writer(il_w, facts)
-    rk = [c.kind for c in consumption.consumes_in(il_r["body"], facts) if not c.kind.startswith("RAW:")]
+    cons_il = [c for c in consumption.consumes_in(il_r["body"], facts) if not c.kind.startswith("RAW:")]
+    rk = [c.kind for c in cons_il]
+    if rk == ["ARRAY"] and cons_il[0].detail is not None:
+        # the array loop (read_array with a callback, or the same loop written out): what one element consumes
+        rk = [c.kind for c in consumption.consumes_in(cons_il[0].detail.get("body"), facts) if not c.kind.startswith("RAW:")]
     ok = iwa.top is not None and iwa.top.kind == "ARRAY" and iwa.top.elem is not None and iwa.top.elem.kind == "UINT32" and rk == ["UINT"]
     run.ob("R01.1", "IndexListItem:[uint]", ok, il_w, il_w["line"], "index lists are arrays of unsigned on both sides" if ok else
            "IndexListItem writer %s / reader %s" % (iwa.top.kind if iwa.top else "?", rk))
